@@ -487,6 +487,15 @@ def run_pipeline(
             if buckets_data_tree.is_empty:
                 buckets_data_tree = partial_datatree_2d
             else:
+                # An image that does not exist yet is reported as NaN. Give it the integer type
+                # of the detector's image before it is appended to integer images, otherwise
+                # all the images go through float64
+                exp_dtype: np.dtype = detector.image.dtype
+
+                for tree in (buckets_data_tree, partial_datatree_2d):
+                    if tree["image"].dtype != exp_dtype and tree["image"].isnull().all():
+                        tree["image"] = tree["image"].fillna(0).astype(dtype=exp_dtype)
+
                 # Append the buckets of this readout along 'time'.
                 # Note: 'xr.merge' aligns on 'time' with an outer join, which goes through NaN and
                 #       float64 and loses the integer values of the image above 2^53
@@ -499,7 +508,6 @@ def run_pipeline(
                 # Fix the data type of the 'image' container to match the detector's image dtype.
                 # See #652
                 image_dtype: np.dtype = buckets_data_tree["image"].dtype
-                exp_dtype: np.dtype = detector.image.dtype
 
                 if image_dtype != exp_dtype:
                     buckets_data_tree["image"] = buckets_data_tree["image"].astype(
